@@ -248,6 +248,11 @@ Handle(ll, e) ==
                  \o (IF k = "fs" /\ TokenMeaning(e.s).known
                        /\ ~(LET want == TokenMeaning(e.s).fn IN IF want.f = "None" THEN fns = <<>> ELSE Len(fns) = 1 /\ FnEq(fns[1], want))
                      THEN <<Msg("FAIL C03", ll, "the specification's own parser disagrees with the meaning of the sequence as written")>> ELSE <<>>)
+                 \o (IF k = "fs" /\ TokenMeaning(e.s).known /\ TokenMeaning(e.s).fn.f = "None"
+                       /\ ~(/\ Normal(cur.t, IF e.consumed THEN e.dr ELSE <<>>) = Normal(prev.t, <<>>)
+                            /\ ((\A i \in 1..Len(prev.t.dirty) : ~prev.t.dirty[i]) => e.ch = <<>>)
+                            /\ cur.p.state = "Ground")
+                     THEN <<Msg("FAIL C20", ll, "a sequence that means nothing (as written) changed the terminal, reported a changed line or left the parser outside ground state")>> ELSE <<>>)
                  \o (IF k = "fs" /\ Len(fns) = 1 /\ StepProp(prev.t, fns[1]) # "none"
                        /\ ~StepOK(prev.t, fns[1], cur.t, e.ch, IF e.consumed THEN Drained(e.dr) ELSE Unread)
                      THEN <<Msg("FAIL " \o StepProp(prev.t, fns[1]), ll, "declarative step predicate fails for " \o ToJson(fns[1]))>> ELSE <<>>)
@@ -368,7 +373,7 @@ Tags(e, prevs, p0) ==
        <<"conformance:feed_str", "GeomOK", "ChangesSound", "Bound">>
        \o (IF prevs # Dead THEN
              LET fns == Functions(prevs.p, e.s) IN
-             (IF TokenMeaning(e.s).known THEN <<"TokenMeaning">> ELSE <<>>)
+             (IF TokenMeaning(e.s).known THEN <<"TokenMeaning">> \o (IF TokenMeaning(e.s).fn.f = "None" THEN <<"InertOK">> ELSE <<>>) ELSE <<>>)
              \o (IF fns = <<>> /\ e.s # <<>> THEN <<"inert-call">> ELSE <<>>)
              \o (IF Len(fns) = 1 THEN <<"fn:" \o fns[1].f>> \o (IF StepProp(prevs.t, fns[1]) # "none" THEN <<"StepOK:" \o StepProp(prevs.t, fns[1])>> ELSE <<>>) ELSE <<>>)
            ELSE <<>>)
